@@ -2,6 +2,7 @@ package funcGen
 
 import (
 	"bytes"
+	"errors"
 	"fmt"
 	"github.com/hneemann/parser2"
 	"github.com/hneemann/parser2/listMap"
@@ -1331,7 +1332,23 @@ func (g *FunctionGenerator[V]) genCodeMap(a listMap.ListMap[parser2.AST], gc Gen
 	return
 }
 
+// errorWithFunctionDocu marks an error that already lists the available functions
+type errorWithFunctionDocu struct {
+	error
+}
+
+func (e errorWithFunctionDocu) Unwrap() error {
+	return e.error
+}
+
 func (g *FunctionGenerator[V]) generateStaticFunctionDocu(err error) error {
+	// Add the list of functions only once. A chain of calls like f(1)(2)(3) passes
+	// the error through this function at every level, so the size of the message -
+	// and the time to create it - would grow quadratically with the length of the chain.
+	var alreadyAdded errorWithFunctionDocu
+	if errors.As(err, &alreadyAdded) {
+		return err
+	}
 	type sf struct {
 		name string
 		f    Function[V]
@@ -1349,7 +1366,7 @@ func (g *FunctionGenerator[V]) generateStaticFunctionDocu(err error) error {
 		b.WriteRune('\n')
 		f.f.Description.WriteTo(&b, f.name)
 	}
-	return fmt.Errorf("%w\n\nAvailable functions are:%s", err, b.String())
+	return errorWithFunctionDocu{fmt.Errorf("%w\n\nAvailable functions are:%s", err, b.String())}
 }
 
 func (g *FunctionGenerator[V]) GetStaticDocumentation() TypeDocumentation {
